@@ -190,12 +190,16 @@ std::string stateLine(Case& c, Opt& o, bool primary) {
 	  << " " << pre << "feas=" << (c.f->isFeasible(p) ? 1 : 0) << " " << pre << "fin=" << ((finite(p) && std::isfinite(v)) ? 1 : 0);
 	if (primary) c.maxb = std::max(c.maxb, std::max(maxbits(p), sigbits(v)));
 	AbstractLineSearchOptimizer<RealVector>* l = dynamic_cast<AbstractLineSearchOptimizer<RealVector>*>(&o);
+	if (l || dynamic_cast<Rprop<RealVector>*>(&o)) {
+		RealVector rg; c.f->value(p, &rg);     // gradient re-evaluated at the reported point
+		s << " " << pre << "reder=" << hexv(rg);
+	}
 	if (l) {
 		s << " " << pre << "der=" << hexv(l->derivative()) << " " << pre << "sdir=" << hexv(Peek::sdir(*l))
 		  << " " << pre << "step=" << hexd(Peek::steplen(*l)) << " " << pre << "lpt=" << hexv(Peek::lpt(*l))
 		  << " " << pre << "lder=" << hexv(Peek::lder(*l)) << " " << pre << "lval=" << hexd(Peek::lval(*l))
 		  << " " << pre << "lstype=" << (int)l->lineSearch().lineSearchType();
-		if (primary) c.maxb = std::max(c.maxb, std::max(maxbits(l->derivative()), maxbits(Peek::sdir(*l))));
+		if (primary) c.maxb = std::max(std::max(c.maxb, sigbits(Peek::steplen(*l))), std::max(maxbits(l->derivative()), maxbits(Peek::sdir(*l))));
 		CG<RealVector>* cg = dynamic_cast<CG<RealVector>*>(&o);
 		if (cg) s << " " << pre << "cnt=" << PeekCG::count(*cg);
 	}
@@ -233,7 +237,8 @@ std::string doInit(Case& c, std::vector<std::string> const& toks) {
 	c.b.reset(); c.dead = false; c.deadmsg = ""; c.maxb = 0; g_inexact = false;
 	c.a.reset(make(c.cfg, true));
 	initOpt(c.cfg, *c.a, *c.f, c.x0, true);
-	return stateLine(c, *c.a, true) + exFlag(c);
+	std::string st = stateLine(c, *c.a, true);   // first: it updates the mantissa watch read by exFlag
+	return st + exFlag(c);
 }
 
 // the fresh instance starts somewhere else: midpoint between x0 and the box centre (box) or x0/2 + 1
@@ -254,7 +259,9 @@ std::string doSave(Case& c) {
 	{ boost::archive::polymorphic_text_oarchive oa(ss); c.a->write(oa); }
 	{ boost::archive::polymorphic_text_iarchive ia(ss); c.b->read(ia); }
 	g_inexact = keepInexact;   // the warm-up of B is not part of the compared run
-	return stateLine(c, *c.a, true) + " " + stateLine(c, *c.b, false) + exFlag(c);
+	std::string st = stateLine(c, *c.a, true);
+	st += " " + stateLine(c, *c.b, false);
+	return st + exFlag(c);
 }
 
 bool sameSolution(Opt& a, Opt& b) {
